@@ -2006,10 +2006,16 @@ impl<'a> Searcher<'a> {
             result = match field_value.get_type() {
                 VariantType::String => {
                     let val = value.to_string();
+                    // the same text means different things to glob, LIKE and regex operators
+                    let cache_key = match op {
+                        Op::Like | Op::NotLike => format!("like:{}", val),
+                        Op::Rx | Op::NotRx => format!("rx:{}", val),
+                        _ => format!("glob:{}", val),
+                    };
                     match op {
                         Op::Eq => match is_glob(&val) {
                             true => {
-                                let regex = self.regex_cache.get(&val);
+                                let regex = self.regex_cache.get(&cache_key);
                                 match regex {
                                     Some(regex) => {
                                         return regex.is_match(&field_value.to_string());
@@ -2019,7 +2025,7 @@ impl<'a> Searcher<'a> {
                                         let regex = Regex::new(&pattern);
                                         match regex {
                                             Ok(ref regex) => {
-                                                self.regex_cache.insert(val, regex.clone());
+                                                self.regex_cache.insert(cache_key, regex.clone());
                                                 return regex.is_match(&field_value.to_string());
                                             }
                                             _ => {
@@ -2033,7 +2039,7 @@ impl<'a> Searcher<'a> {
                         },
                         Op::Ne => match is_glob(&val) {
                             true => {
-                                let regex = self.regex_cache.get(&val);
+                                let regex = self.regex_cache.get(&cache_key);
                                 match regex {
                                     Some(regex) => {
                                         return !regex.is_match(&field_value.to_string());
@@ -2043,7 +2049,7 @@ impl<'a> Searcher<'a> {
                                         let regex = Regex::new(&pattern);
                                         match regex {
                                             Ok(ref regex) => {
-                                                self.regex_cache.insert(val, regex.clone());
+                                                self.regex_cache.insert(cache_key, regex.clone());
                                                 return !regex.is_match(&field_value.to_string());
                                             }
                                             _ => {
@@ -2056,7 +2062,7 @@ impl<'a> Searcher<'a> {
                             false => val.ne(&field_value.to_string()),
                         },
                         Op::Rx => {
-                            let regex = self.regex_cache.get(&val);
+                            let regex = self.regex_cache.get(&cache_key);
                             match regex {
                                 Some(regex) => {
                                     return regex.is_match(&field_value.to_string());
@@ -2065,7 +2071,7 @@ impl<'a> Searcher<'a> {
                                     let regex = Regex::new(&val);
                                     match regex {
                                         Ok(ref regex) => {
-                                            self.regex_cache.insert(val, regex.clone());
+                                            self.regex_cache.insert(cache_key, regex.clone());
                                             return regex.is_match(&field_value.to_string());
                                         }
                                         _ => error_exit("Incorrect regex expression", val.as_str()),
@@ -2074,7 +2080,7 @@ impl<'a> Searcher<'a> {
                             }
                         }
                         Op::NotRx => {
-                            let regex = self.regex_cache.get(&val);
+                            let regex = self.regex_cache.get(&cache_key);
                             match regex {
                                 Some(regex) => {
                                     return !regex.is_match(&field_value.to_string());
@@ -2083,7 +2089,7 @@ impl<'a> Searcher<'a> {
                                     let regex = Regex::new(&val);
                                     match regex {
                                         Ok(ref regex) => {
-                                            self.regex_cache.insert(val, regex.clone());
+                                            self.regex_cache.insert(cache_key, regex.clone());
                                             return !regex.is_match(&field_value.to_string());
                                         }
                                         _ => error_exit("Incorrect regex expression", val.as_str()),
@@ -2092,7 +2098,7 @@ impl<'a> Searcher<'a> {
                             }
                         }
                         Op::Like => {
-                            let regex = self.regex_cache.get(&val);
+                            let regex = self.regex_cache.get(&cache_key);
                             match regex {
                                 Some(regex) => {
                                     return regex.is_match(&field_value.to_string());
@@ -2102,7 +2108,7 @@ impl<'a> Searcher<'a> {
                                     let regex = Regex::new(&pattern);
                                     match regex {
                                         Ok(ref regex) => {
-                                            self.regex_cache.insert(val, regex.clone());
+                                            self.regex_cache.insert(cache_key, regex.clone());
                                             return regex.is_match(&field_value.to_string());
                                         }
                                         _ => error_exit("Incorrect LIKE expression", val.as_str()),
@@ -2111,7 +2117,7 @@ impl<'a> Searcher<'a> {
                             }
                         }
                         Op::NotLike => {
-                            let regex = self.regex_cache.get(&val);
+                            let regex = self.regex_cache.get(&cache_key);
                             match regex {
                                 Some(regex) => {
                                     return !regex.is_match(&field_value.to_string());
@@ -2121,7 +2127,7 @@ impl<'a> Searcher<'a> {
                                     let regex = Regex::new(&pattern);
                                     match regex {
                                         Ok(ref regex) => {
-                                            self.regex_cache.insert(val, regex.clone());
+                                            self.regex_cache.insert(cache_key, regex.clone());
                                             return !regex.is_match(&field_value.to_string());
                                         }
                                         _ => error_exit("Incorrect LIKE expression", val.as_str()),
